@@ -695,10 +695,24 @@ func (w *uWorld) doReply(i int, op UOp, from *kit.UDPPeer, kind string) *kit.Fin
 		return nil
 	}
 	src, ok := a.NatSrc[fam(from.Addr)]
-	if !ok {
+	if !ok && from.Addr.Zone == "" {
 		return nil
 	}
 	to, _ := net.ResolveUDPAddr("udp", src)
+	if from.Addr.Zone != "" {
+		// the outbound socket is one wildcard socket: same port on every local address, also on the link-local one
+		port := 0
+		for _, s := range a.NatSrc {
+			if ap, err := net.ResolveUDPAddr("udp", s); err == nil {
+				port = ap.Port
+			}
+		}
+		if port == 0 {
+			return nil
+		}
+		to = &net.UDPAddr{IP: from.Addr.IP, Zone: from.Addr.Zone, Port: port}
+		src = to.String()
+	}
 	n := op.N
 	body := kit.DetBytes(op.Seed+3, n)
 	cl := w.clients[op.Client]
@@ -831,6 +845,12 @@ func (w *uWorld) strangerFor(family string) *kit.UDPPeer {
 	if family == "v6" {
 		ip = "::1"
 	}
+	if family == "ll6" {
+		c05Detect()
+		if ip = c05Local.zoned; ip == "" { // this host has no link-local address
+			return nil
+		}
+	}
 	p, err := kit.NewUDPPeer(ip, 0)
 	if err != nil {
 		return nil
@@ -858,6 +878,13 @@ func (w *uWorld) run() *kit.Finding {
 					for k := range a.NatSrc {
 						famly = k
 					}
+				}
+			}
+			if op.Seed%5 == 0 {
+				// a sender on a link-local address (its source address carries a zone, which the reply header cannot)
+				if p := w.strangerFor("ll6"); p != nil && w.liveAssoc(op.Client) != nil {
+					f = w.doReply(i, op, p, "stray-linklocal")
+					break
 				}
 			}
 			if p := w.strangerFor(famly); p != nil {
